@@ -43,7 +43,8 @@ def standard(ctx, mcs, gen_kv=None, release=False, **meta):
         if tier == 'thorough' and os.path.exists(os.path.join(os.path.dirname(os.path.dirname(os.path.abspath(__file__))), 'spec', cfg + '_thorough.cfg')):
             cfg = cfg + '_thorough'
         r, rp = ctx['run_mc'](ctx['prop'], spec['module'], cfg=cfg,
-                              workers=spec.get('workers', 8), timeout=spec.get('timeout', 1500), expect=spec.get('expect', 'ok'))
+                              workers=spec.get('workers', 8), timeout=spec.get('timeout', 1500), expect=spec.get('expect', 'ok'),
+                              coverage=spec.get('coverage', True))
         mc_results.append(r)
         replay.extend(rp)
     kv = dict(gen_kv or {})
@@ -131,7 +132,36 @@ def plan_c10(ctx):
     return r
 
 
+def plan_c17(ctx):
+    r = standard(ctx, [dict(module='MC_Hilbert', cfg='MC_Hilbert_c17', workers=12, coverage=False)],
+                 rule='all 4^n positions x 6 orientations for n<=6 (quick) / n<=8 (thorough): the harness measures the lattice triangle of '
+                      'each pentagon centre from the real vertices, sorts by triangle, and TLC checks strictly increasing triangles inside '
+                      'TriSet(n), count 4^n and ij_to_s(centre)=s; for n up to 29 boundary / digit-pattern / random positions. '
+                      'distinct_nontrivial = positions examined',
+                 assumptions=['the lattice basis (face_to_ij) is taken from the library to express measured vertices in lattice units'])
+    s = r['summary']
+    r['distinct_nontrivial'] = int(s.get('positions_exhaustive', 0)) + int(s.get('positions_deep', 0))
+    r['exhaustive'] = False
+    return r
+
+
+def plan_c12(ctx):
+    r = standard(ctx, [dict(module='MC_Hilbert', cfg='MC_Hilbert_c12', workers=12, coverage=False)],
+                 rule='every parent/child pair of tiles for depth<=4 (quick) / <=6 exhaustively and patterns to depth 28, classified from the '
+                      'measured pentagons into configurations; one measured fact (clipped overlap area, cover, centre distance) per '
+                      'configuration and parent type; on the sphere every parent of res 0..2 (quick) / 0..4 and sampled parents on every '
+                      'face x quintant for res 3..28 with an independent ring oracle. distinct_nontrivial = sphere pairs + planar facts',
+                 assumptions=['areas are compared in the face plane: the projection is area preserving (C16, not claimed) so planar overlap '
+                              'fractions equal spherical ones; distances are measured on the sphere',
+                              'harness oracles: Sutherland-Hodgman clipping, gnomonic ring containment'])
+    s = r['summary']
+    r['distinct_nontrivial'] = int(s.get('sphere_pairs', 0)) + int(s.get('planar_facts', 0))
+    return r
+
+
 PLANS = {
+    'C17': plan_c17,
+    'C12': plan_c12,
     'C08': plan_c08,
     'C10': plan_c10,
     'C05': plan_c05,
